@@ -38,6 +38,14 @@ CHECKS.update({
     "C10": simcheck("§4 C10", "Generated schedules (cron grammar, id templates), clock jumps over many occurrences, schedule batch sizes, create/delete/re-create and user-created occurrence promises racing the cycle, faults and crashes; oracle S1-S4 with an independent robfig/cron computation and reference template expansion: occurrences fire once, in order, never early, promise + advance in one transaction, correct promise fields, nothing fires for a deleted incarnation's later occurrences."),
     "C11": simcheck("§4 C11", "Phase 1 builds a reachable backlog without background work, the clock jumps, the kernel restarts with all five background coroutines (registration order permuted) and a configuration drawn over the documented ranges down to batch sizes and coroutine pool of one; a finite failure phase; then cycles (clock + signal timeout, ticks until settled). Oracle: the statement's quiescence predicates hold within a bound computed from backlog/batch sizes and keep holding, every cycle settles, no task stays dispatchable beyond its bound. Workloads are kept below service capacity (schedule periods >= 60 s, scheduled promises not overdue) so that lag cannot grow without a defect. Found F12 (repaired)."),
     "C14": simcheck("§4 C14", "Generated populations, queries (wildcards, state subsets, tags, limits relative to the match count) and full cursor traversals through encode->token->decode with creations, completions, deletions and time-outs interleaved; oracle R1-R6: returned items match in the state the page was computed from, no duplicates, newest-first by sort id, page size and cursor presence, everything that matched throughout a completed traversal is returned, overdue promises never reported pending, tampered tokens rejected."),
+    "C18": dict(engine="pollt", category="exploration", design="§5 C18",
+                technique="model-based stateful property testing (rapid state machine) of the production connection registry + PollWorker.Process against a reference model; plus a wire-level run with real SSE clients",
+                text="(a) deterministic: connect / disconnect / reconnect-same-id / drain / send / send-with-malformed-receiver-data sequences over 2 groups, ids incl. empty and slashes, limits and buffers down to 1; reference model = registry of live listeners with FIFO buffers; after every operation every channel the harness ever created is audited (contents, closed exactly when the model says, registry count). (b) wire level: the real plugin on a loopback port with SSE clients and churn; each body read at most once, only in its group, only if reported delivered. Found F11 (data null crashes the transport), repaired.",
+                note="(a) drives the registry through a single-threaded hook (no goroutines): the worker loop's select/priorities and the HTTP handler are only covered by (b), which samples real scheduling; time-outs there are classified inconclusive, never a violation. The random choice among group members is judged by a validity predicate."),
+    "C19": dict(engine="route", category="exploration", design="§5 C19",
+                technique="property-based testing (rapid) of the real router and sender worker against an independent reference resolution written from the statement",
+                text="Routing tag values from a JSON-aware grammar plus free strings, source tables (order, default), target tables overlapping URL-looking names, plugin availability, task kind and hand-off outcome; the promise goes through router.New/Process, the recv through sender.New's target table and SenderWorker.Process with recording plugins. Oracle: route/no-route and logical/physical classification, (transport, data) resolution, message body naming task id/counter/links or the promise, exactly one completion per submission, success only when a transport accepted. Found F6 (tag value null crashes the router), repaired.",
+                note="Recording plugins stand in for the poll/http transports (those are C18 and C13/C20). JSON field names are matched case-insensitively like Go's decoder (the statement is silent). Receiver data is compared as JSON values."),
     "C15": dict(engine="front", category="exploration", design="§5 C15",
                 technique="exhaustive enumeration of the (endpoint x kernel status x response shape x delivery) matrix against a stub kernel, plus property-based differential testing (rapid) of HTTP vs gRPC request translation",
                 text="Part 1 enumerates completely, on every run, every endpoint of both protocols x every StatusCode constant (parsed from t_api/status.go at run time) x every response shape the operation's coroutine can return, delivered as response status and as t_api.Error, through the real gin handler and the real gRPC service methods: no panic / dropped reply, HTTP code = status/100 with a parsable error body carrying the status, gRPC OK message or the documented code class, outcome flags consistent with the status. Part 2 generates well-formed requests in both protocols and requires the same t_api.Request to reach the kernel. Found F5 (statuses missing from tables; released flag), repaired.",
@@ -55,6 +63,8 @@ CHECKS.update({
 NOT_APPLICABLE = []
 
 ENGINES = [
+    dict(name="pollt", path="harness/pollt", kind_free_text="poll transport: single-threaded registry driver + reference model; wire-level SSE run"),
+    dict(name="route", path="harness/route", kind_free_text="real router + sender worker with recording plugins vs reference receiver resolution"),
     dict(name="front", path="harness/front", kind_free_text="stub kernel behind the real gin handler and gRPC service implementation; exhaustive status matrix + generated request equivalence"),
     dict(name="storepbt", path="harness/storepbt", kind_free_text="store command generator + executable reference model + failing/observing database/sql driver + pgsim (Postgres dialect on SQLite)"),
     dict(name="sim", path="harness/sim", kind_free_text="deterministic simulator: real system.System/api/coroutines/sqlite store/router/sender worker behind a rapid-driven AIO (schedule, faults, crashes are draws); per-transaction snapshots; statement-derived oracles"),
